@@ -883,14 +883,23 @@ fn round_blocking(rt: &tokio::runtime::Runtime, seed: u64, hb: &Heartbeat, tot: 
 // ---------------------------------------------------------------------------------------------
 fn round_starve(seed: u64, hb: &Heartbeat, tot: &Mutex<Tot>, prop: &str) {
     let mut r = Rng::new(seed);
-    let rt = tokio::runtime::Builder::new_current_thread().enable_time().build().unwrap();
+    // current-thread: the caller is simply not polled until the thread is free again; two workers: the caller sits in the
+    // busy worker's LIFO slot while the other worker's time driver fires its timer at the deadline
+    let rt = if r.chance(50) {
+        tokio::runtime::Builder::new_current_thread().enable_time().build().unwrap()
+    } else {
+        tokio::runtime::Builder::new_multi_thread().worker_threads(2).enable_time().build().unwrap()
+    };
     let sh = Shared::new(1, 1, false, false, seed);
     let variant = 2 * r.below(2); // 0: ask whose reply is early; 2: tell whose mailbox slot is early
     let spec = ActorSpec { cap: Some(if variant == 2 { 1 } else { 4 }), start: HookScript::default(), run: vec![], stop: HookScript::default(), run_err_when_handled: None, in_peers: false };
     let bucket0 = hb.now_bucket();
     let to_ms = 40 + r.below(20);
     let block_us = (to_ms + 40) * 1000;
-    let out = rt.block_on(async {
+    let sh0 = sh.clone();
+    let out = rt.block_on(async move {
+      tokio::spawn(async move {
+        let sh = sh0;
         let (a, jh) = spawn_sa(&sh, 0, &spec);
         sh.model_add(0, 1, "spawner");
         let w = tokio::spawn(watch(sh.clone(), 0, jh));
@@ -933,6 +942,7 @@ fn round_starve(seed: u64, hb: &Heartbeat, tot: &Mutex<Tot>, prop: &str) {
         sh.model_add(0, -1, "drop");
         let _ = tokio::time::timeout(Duration::from_secs(10), w).await;
         out
+      }).await.unwrap()
     });
     let (res, el) = out;
     let ids = sh.ids.lock().unwrap().clone();
